@@ -60,6 +60,7 @@ pub fn replay_kind(kind: &str, j: &serde_json::Value) -> Option<Vec<String>> {
         "layout" => Some(c20::replay_layout(j)),
         "reuse" => Some(util::replay_reuse(j)),
         "threads" => Some(c01::replay_threads(j)),
+        "xcase" => Some(c05::replay_xcase(j)),
         _ => None,
     }
 }
